@@ -133,8 +133,13 @@ TxFrame(s, ev) ==
   LET c     == ev.c + 1
       cand  == {i \in Idx(s) : s.acc[i].st # "rej" /\ \E a \in 1..Len(ev.alts) : Same(s.acc[i].desc, ev.alts[a])}
       elig  == {i \in cand : s.acc[i].att = 0 \/ s.acc[i].failed}
-      retry == {i \in elig : s.acc[i].failed}
-      i     == IF retry # {} THEN Min(retry) ELSE IF elig # {} THEN Min(elig) ELSE 0
+      \* among submissions that read the same, the frame is attributed to one that may still be sent
+      \* (a pending re-send first, then the oldest unexpired one), else to the oldest
+      live  == {i \in elig : s.now < s.acc[i].expiry}
+      retry == {i \in live : s.acc[i].failed /\ s.acc[i].att < 1 + s.acc[i].retries}
+      fresh == {i \in live : s.acc[i].att = 0}
+      i     == IF retry # {} THEN Min(retry) ELSE IF fresh # {} THEN Min(fresh)
+               ELSE IF live # {} THEN Min(live) ELSE IF elig # {} THEN Min(elig) ELSE 0
       s1    == IF Op(s) = "no" /\ ev.nw > 0 THEN V(s, "WriteAfterClose") ELSE s
       s2    == IF ev.ok /\ (ev.from # CLIENT \/ ev.to # (IF ev.type = EXT_TYPE THEN CONSOLE_EXT ELSE CONSOLE))
                THEN V(s1, "Addressing") ELSE s1
